@@ -38,7 +38,10 @@ def mdoC (x : MSt) (st : MStep) (line : String) : MSt × List String :=
 def mstepLine (x : MSt) (line : String) : MSt × List String :=
   let bad := (x, ["bad-op " ++ line])
   match line.splitOn " " with
-  | ["RC"] => ({ x with m := { x.m with cfg := x.st.cfg } }, [])
+  | ["RC"] =>
+    -- `rcFinb`: everything the registers mention is still named by the new configuration (`rcFinb_sound`: DynFin is kept)
+    ({ x with m := { x.m with cfg := x.st.cfg } },
+      if rcFinb x.st.u x.m x.st.cfg then [] else ["unnamed RC"])
   | ["X"] => ({ x with m := { cfg := {}, dyn := { loaded := fun _ => false, on := fun _ _ => false, tgts := fun _ _ => [] },
                                tbl := [] } }, [])
   | ["ML", i] => match i.toNat? with | some i => mdoC x (.load i) line | none => bad
